@@ -125,6 +125,11 @@ func genSeq(seed uint64, r *core.Rand) Scenario {
 	nc.LatMaxUS = nc.LatMinUS + r.Pick(0, 50, 500)
 	nc.ChunkMode = r.Pick(0, 1, 2, 3)
 	nc.ChunkMaxLen = 2000
+	// writes that wait together may travel as one byte run (pipelined requests, a response and
+	// the frames behind it); hash-derived so that no other choice moves
+	if x := core.HS(seed, "c02.coalesce", "", 0) % 100; x < 30 {
+		nc.Coalesce = []float64{0.3, 0.7, 1}[x%3]
+	}
 	sc.Net = nc
 	return sc
 }
